@@ -23,6 +23,7 @@ def run(res):
             continue
         c["chunks"] = split_chunks(xs, rng.randint(2, 6), rng)
         cases.append(c)
+    cases += multi_shape_cases(rng, 400 if thorough else 40)
     q = ["chunkbytes %s %d %d %d %d %s" % (c["dt"], c["level"], c["order"], c["gcds"], len(c["chunks"]), " ".join(pl.nums_str(ch) for ch in c["chunks"])) for c in cases]
     a1 = lib.run_impl(q)
     a2 = lib.run_impl(q[::3], shards=4)          # a second set of processes
